@@ -25,7 +25,7 @@ class Contract:
     def __init__(self, qualname, params=None, sizes=None, requires=(), ensures=(), raises=(), returns=None,
                  loops=None, modifies=(), ghost=None, trusted=False, props=(), size_constraints=(),
                  asserts=None, inline=False, notes="", pure=True, options=None, ensures_exc=None,
-                 ghost_params=None, lemmas=(), result_ghost=None, finite_sizes=None, replay=None):
+                 ghost_params=None, lemmas=(), result_ghost=None, finite_sizes=None, replay=None, ghost_returns=None):
         self.qualname = qualname
         self.params = dict(params or {})
         self.sizes = list(sizes or [])
@@ -50,6 +50,7 @@ class Contract:
         self.result_ghost = dict(result_ghost or {})
         self.finite_sizes = finite_sizes
         self.replay = replay
+        self.ghost_returns = dict(ghost_returns or {})   # ghost values a call yields (named witnesses usable by the caller's invariants)
 
 
 class Registry:
